@@ -8,6 +8,7 @@ import (
 	"crypto/rsa"
 	"errors"
 	"fmt"
+	"github.com/fxamacker/cbor/v2"
 	"math/big"
 	"sync"
 
@@ -323,6 +324,34 @@ func runC01(c *Collector, r *Rng, thorough bool) {
 				}
 			}
 
+			// --- protected buckets carrying tagged values, integers beyond int64, or nothing but a serialized empty map
+			// given as bytes (h'a0'): signed, serialised, parsed back, verified ---
+			if i < 2 {
+				bigv := new(big.Int).Lsh(big.NewInt(1), 63)
+				for vi, extra := range []any{cbor.Tag{Number: 32, Content: "https://example.org/x"}, cbor.Tag{Number: 100, Content: []any{int64(1)}}, *bigv, []any{bigv}, nil} {
+					h := cose.Headers{Protected: cose.ProtectedHeader{cose.HeaderLabelAlgorithm: k.alg, int64(-70020): extra}, Unprotected: cose.UnprotectedHeader{}}
+					xext := ext
+					if extra == nil { // caller-supplied protected bytes: the serialized empty map
+						h = cose.Headers{RawProtected: []byte{0x41, 0xa0}, Unprotected: cose.UnprotectedHeader{}}
+						xext = []byte("external data") // no alg in the bucket: external data required
+					}
+					xm := &cose.Sign1Message{Headers: h, Payload: payload}
+					if err := xm.Sign(r, xext, signer); err != nil {
+						continue
+					}
+					c.Eval("sign1-protected-special/"+k.alg.String(), fmt.Sprint(vi, i), true)
+					xb, err := xm.MarshalCBOR()
+					if err != nil {
+						continue
+					}
+					var back cose.Sign1Message
+					if err := back.UnmarshalCBOR(xb); err != nil {
+						fail("sign1-own-output-not-decodable", fmt.Sprintf("a signed message whose protected bucket holds %T was serialised but cannot be parsed back: %v", extra, err), rep)
+					} else if err := back.Verify(xext, verifier); err != nil {
+						fail("sign1-wire", fmt.Sprintf("a signed message whose protected bucket holds %T (nil: the bytes 41 a0) does not verify after a wire round trip: %v", extra, err), rep)
+					}
+				}
+			}
 			// --- hash envelope ---
 			if len(payload) < 100 {
 				hv := digestOf(crypto.SHA256, payload)
@@ -719,6 +748,89 @@ func runC07(c *Collector, r *Rng, thorough bool) {
 		n = 2500
 	}
 	cfg := GenCfg{MaxEntries: 6, ValDepth: 3, Csig: 0, Tags: true, Floats: true, NoAlg: true}
+	// deterministic part: every spelling of the protected bucket's length prefix (all five head widths) around an
+	// empty bucket, a serialized empty map, and a bucket with alg, in every layer, signed by the standard library over
+	// the RFC structures of the bytes as sent
+	for ki, k := range []realKey{keys[0], keys[3], keys[4]} {
+		ext := []byte("external data")
+		for _, content := range [][]byte{nil, {0xa0}, wMap(-1, wInt(1, -1), wInt(int64(k.alg), -1)).Ser(), wMap(-1, wInt(4, -1), wBstr([]byte("kid"), -1), wInt(1, -1), wInt(int64(k.alg), 2)).Ser()} {
+			for _, wd := range []int{0, 1, 2, 4, 8} {
+				if wd < minWidth(uint64(len(content))) {
+					continue
+				}
+				pb := &W{Maj: 2, Width: wd, Str: content}
+				pl := []byte("payload")
+				rep := map[string]any{"alg": k.alg.String(), "protected": hx(pb.Ser())}
+				// COSE_Sign1 with a countersignature whose own protected bucket is spelled the same way
+				sig := refSign(r, k, refArray(refTstr("Signature1"), refBstr(content), refBstr(ext), refBstr(pl)))
+				csig := refSign(r, k, refArray(refTstr("CounterSignatureV2"), refBstr(content), refBstr(content), refBstr(ext), refBstr(pl), refArray(refBstr(sig))))
+				um := wMap(-1, wInt(11, -1), wArr(-1, pb.Clone(), wMap(-1), wBstr(csig, -1)))
+				data := wTag(18, -1, wArr(-1, pb.Clone(), um, wBstr(pl, -1), wBstr(sig, -1))).Ser()
+				rep["data"] = hx(data)
+				d := decodeCase(c, "conforming/prefix-widths/DSign1", "DSign1", data)
+				if d.paniced {
+					continue
+				}
+				c.Eval("prefix-widths/sign1", fmt.Sprint(ki, wd, len(content)), true)
+				if d.err != nil {
+					c.Fail("C07/rejected", "conforming message refused: "+d.err.Error(), rep)
+					continue
+				}
+				if err := d.s1.Verify(ext, k.verifier()); err != nil {
+					c.Fail("C07/verify", "message signed by an independent implementation over its wire bytes does not verify: "+err.Error(), rep)
+				}
+				if cs, ok := d.s1.Headers.Unprotected[int64(11)].(*cose.Countersignature); !ok {
+					c.Fail("C07/countersig-shape", "the nested countersignature was not decoded as one", rep)
+				} else if err := cs.Verify(k.verifier(), d.s1, ext); err != nil {
+					c.Fail("C07/countersig-verify", "nested countersignature by an independent implementation does not verify against the decoded parent: "+err.Error(), rep)
+				}
+				// COSE_Sign: the same spelling for the body and for the signer
+				ssig := refSign(r, k, refArray(refTstr("Signature"), refBstr(content), refBstr(content), refBstr(ext), refBstr(pl)))
+				// ... and a countersignature over that signer (RFC 9338: the signer's protected bytes as sent, its
+				// signature as the payload), itself countersigned once more
+				cs1 := refSign(r, k, refArray(refTstr("CounterSignature"), refBstr(content), refBstr(content), refBstr(ext), refBstr(ssig)))
+				cs2 := refSign(r, k, refArray(refTstr("CounterSignature"), refBstr(content), refBstr(content), refBstr(ext), refBstr(cs1)))
+				csOnSigner := wArr(-1, pb.Clone(), wMap(-1, wInt(11, -1), wArr(-1, pb.Clone(), wMap(-1), wBstr(cs2, -1))), wBstr(cs1, -1))
+				mdata := wTag(98, -1, wArr(-1, pb.Clone(), wMap(-1), wBstr(pl, -1), wArr(-1, wArr(-1, pb.Clone(), wMap(-1, wInt(11, -1), csOnSigner), wBstr(ssig, -1))))).Ser()
+				dm := decodeCase(c, "conforming/prefix-widths/DSignMsg", "DSignMsg", mdata)
+				if dm.paniced {
+					continue
+				}
+				rep2 := map[string]any{"alg": k.alg.String(), "data": hx(mdata)}
+				if dm.err != nil {
+					c.Fail("C07/rejected", "conforming COSE_Sign refused: "+dm.err.Error(), rep2)
+				} else if err := dm.sm.Verify(ext, k.verifier()); err != nil {
+					c.Fail("C07/verify", "COSE_Sign signed by an independent implementation does not verify: "+err.Error(), rep2)
+				} else if csd, ok := dm.sm.Signatures[0].Headers.Unprotected[int64(11)].(*cose.Countersignature); !ok {
+					c.Fail("C07/countersig-shape", "the countersignature on the signer was not decoded as one", rep2)
+				} else {
+					if err := csd.Verify(k.verifier(), dm.sm.Signatures[0], ext); err != nil {
+						c.Fail("C07/countersig-verify", "a countersignature over a COSE_Signature by an independent implementation does not verify against the decoded signer: "+err.Error(), rep2)
+					}
+					if inner, ok := csd.Headers.Unprotected[int64(11)].(*cose.Countersignature); !ok {
+						c.Fail("C07/countersig-shape", "the countersignature on the countersignature was not decoded as one", rep2)
+					} else if err := inner.Verify(k.verifier(), csd, ext); err != nil {
+						c.Fail("C07/countersig-verify", "a countersignature over a countersignature by an independent implementation does not verify against the decoded one: "+err.Error(), rep2)
+					}
+				}
+				// the protected bytes were seen before (by this very decoder): decoding them again gives every message
+				// its own header maps - an edit of one decoded message leaves the next one decoded alone
+				if dm.err == nil {
+					d2 := decodeKind("DSign1", data)
+					if d2.err == nil && d2.s1 != nil && d2.s1.Headers.Protected != nil {
+						d2.s1.Headers.Protected[cose.HeaderLabelAlgorithm] = cose.Algorithm(-65000)
+						d2.s1.Headers.Protected[int64(-70040)] = "edited by the application"
+					}
+					d3 := decodeKind("DSign1", data)
+					if d3.err != nil {
+						c.Fail("C07/rejected", "a conforming message is refused the third time it is decoded: "+d3.err.Error(), rep)
+					} else if err := d3.s1.Verify(ext, k.verifier()); err != nil {
+						c.Fail("C07/verify", "a conforming message decoded after the application had edited another decoded copy of it does not verify: "+err.Error(), rep)
+					}
+				}
+			}
+		}
+	}
 	for i := 0; i < n; i++ {
 		k := pick(r, keys)
 		ext := genGoExternal(r)
@@ -880,9 +992,23 @@ func runC07(c *Collector, r *Rng, thorough bool) {
 
 // c03AllKeys: every key of the key set (all RSA modulus sizes included: 2048, 2051, 3072 bits), messages signed by the
 // standard library over the RFC structure: accepted; with one bit of the signature flipped: refused. Then one verifier
-// of each algorithm shared by 8 goroutines verifying valid messages at once: each verdict is the sequential one.
+// of each algorithm shared by 32 goroutines verifying valid messages at once: each verdict is the sequential one.
 func c03AllKeys(c *Collector, r *Rng) {
+	keys := append([]realKey{}, realKeySet(r)...)
+	// ECDSA keys under the other ES algorithms as well (the library lets any curve sign under any of them: the digest
+	// may be longer or shorter than the curve order)
 	for _, k := range realKeySet(r) {
+		if _, ok := k.priv.(*ecdsa.PrivateKey); ok {
+			for _, a := range []cose.Algorithm{cose.AlgorithmES256, cose.AlgorithmES384, cose.AlgorithmES512} {
+				if a != k.alg {
+					if _, err := cose.NewVerifier(a, k.pub); err == nil {
+						keys = append(keys, realKey{a, k.name + "-under-" + a.String(), k.priv, k.pub})
+					}
+				}
+			}
+		}
+	}
+	for _, k := range keys {
 		vf := k.verifier()
 		type vm struct {
 			m   *cose.Sign1Message
@@ -913,6 +1039,19 @@ func c03AllKeys(c *Collector, r *Rng) {
 			if err := bad.Verify(ext, vf); err == nil {
 				c.Fail("C03/verdict", "Verify returned nil for a signature with one bit flipped", rep)
 			}
+			// for ECDSA, every single bit of one signature flipped in turn
+			if _, ok := k.priv.(*ecdsa.PrivateKey); ok && i == 0 {
+				for bit := 0; bit < 8*len(m.Signature); bit++ {
+					fl := m
+					fl.Signature = append([]byte{}, m.Signature...)
+					fl.Signature[bit/8] ^= 0x80 >> uint(bit%8)
+					if fl.Verify(ext, vf) == nil && !refVerify(k.alg, k.pub, refArray(refTstr("Signature1"), refBstr(pcontent), refBstr(orEmpty(ext)), refBstr(pl)), fl.Signature) {
+						c.Fail("C03/verdict", fmt.Sprintf("Verify returned nil for a signature with bit %d (octet %d) flipped; the standard library refuses it", bit, bit/8), map[string]any{"key": k.name, "alg": k.alg.String(), "data": hx(data), "flipped_bit": bit})
+						break
+					}
+				}
+				c.Eval("every-bit-flipped/"+k.name+"/"+k.alg.String(), hx(data), true)
+			}
 		}
 		if len(valid) == 0 {
 			continue
@@ -920,11 +1059,11 @@ func c03AllKeys(c *Collector, r *Rng) {
 		var wg sync.WaitGroup
 		var mu sync.Mutex
 		refused := 0
-		for g := 0; g < 8; g++ {
+		for g := 0; g < 32; g++ {
 			wg.Add(1)
 			go func(g int) {
 				defer wg.Done()
-				for round := 0; round < 30; round++ {
+				for round := 0; round < 60; round++ {
 					v := valid[(g+round)%len(valid)]
 					var err error
 					if p, _ := protect(func() { err = v.m.Verify(v.ext, vf) }); p || err != nil {
@@ -938,7 +1077,7 @@ func c03AllKeys(c *Collector, r *Rng) {
 		wg.Wait()
 		c.Eval("shared-verifier/"+k.name+"/"+k.alg.String(), fmt.Sprint(len(valid)), true)
 		if refused > 0 {
-			c.Fail("C03/verdict-depends-on-concurrent-use", fmt.Sprintf("%d of 240 verifications of valid messages were refused (or panicked) when 8 goroutines shared one %v verifier", refused, k.alg), map[string]any{"key": k.name, "alg": k.alg.String()})
+			c.Fail("C03/verdict-depends-on-concurrent-use", fmt.Sprintf("%d of 1920 verifications of valid messages were refused (or panicked) when 32 goroutines shared one %v verifier", refused, k.alg), map[string]any{"key": k.name, "alg": k.alg.String()})
 		}
 	}
 }
